@@ -28,6 +28,7 @@ func runC11CLI(c *Ctx) {
 		first, ndays        int
 		from, to, iv, last  int
 		diff                bool
+		noTo                bool // no --to flag: the window ends today
 		args                []string
 		code                int
 		stdout, stderr, txt string
@@ -46,7 +47,21 @@ func runC11CLI(c *Ctx) {
 			jb.from = jb.first + r.Range(-10, jb.ndays/2+2)
 		}
 		jb.to = lastDay + r.Range(-jb.ndays/2-2, 15)
-		if r.Chance(1, 8) {
+		if r.Chance(1, 6) {
+			// no --to: the window ends TODAY; the journal runs from the past into the future, so that some of its days lie
+			// after the window ("later dates [are attributed] to no column"; seeded change C11-e dropped the filter stage
+			// when neither --from nor --to is given and placed the zero date of the future amounts into the first column)
+			jb.noTo = true
+			jb.first = today() - r.Range(1, jb.ndays)
+			lastDay = jb.first + jb.ndays - 1
+			jb.to = today()
+			if r.Chance(1, 2) {
+				jb.from = 0
+			} else {
+				jb.from = jb.first + r.Range(-3, 3)
+			}
+		}
+		if !jb.noTo && r.Chance(1, 8) {
 			// a window ending exactly on a unit boundary
 			t := dayTime(jb.to)
 			jb.to = dayNum(time.Date(t.Year(), t.Month(), 1, 0, 0, 0, 0, time.UTC)) - r.Intn(2)
@@ -65,7 +80,10 @@ func runC11CLI(c *Ctx) {
 			fmt.Fprintf(&b, "%s \"d%d\"\nEquity:E Assets:A 1 CHF\n\n", fmtDate(jb.first+d), d)
 		}
 		jb.txt = b.String()
-		jb.args = []string{"balance", "--color=false", "--csv", "--close=false", "--to", fmtDate(jb.to)}
+		jb.args = []string{"balance", "--color=false", "--csv", "--close=false"}
+		if !jb.noTo {
+			jb.args = append(jb.args, "--to", fmtDate(jb.to))
+		}
 		if jb.from != 0 {
 			jb.args = append(jb.args, "--from", fmtDate(jb.from))
 		}
@@ -84,7 +102,11 @@ func runC11CLI(c *Ctx) {
 		jb := jobs[k]
 		p := filepath.Join(dir, fmt.Sprintf("j%d.knut", jb.idx))
 		os.WriteFile(p, []byte(jb.txt), 0o644)
-		jb.code, jb.stdout, jb.stderr = runKnut(c.KnutBin, 20*time.Second, nil, append(jb.args, p)...)
+		var env []string
+		if jb.noTo {
+			env = []string{"TZ=UTC"} // "today" must be the harness' today
+		}
+		jb.code, jb.stdout, jb.stderr = runKnut(c.KnutBin, 20*time.Second, env, append(jb.args, p)...)
 		os.Remove(p)
 	})
 	bt := c.NewBatch()
@@ -104,7 +126,7 @@ func runC11CLI(c *Ctx) {
 		in := map[string]any{"args": strings.Join(jb.args, " "), "journal": fmt.Sprintf("1 CHF from Equity:E to Assets:A on each of the %d days from %s", jb.ndays, fmtDate(jb.first)),
 			"window":            map[string]any{"a": a, "b": b, "iv": jb.iv, "last": jb.last},
 			"child_environment": strings.Join(childTZ(nil, append(append([]string{}, jb.args...), fmt.Sprintf("/j%d.knut", jb.idx))), " ")}
-		c.Class(fmt.Sprintf("cli/iv%d/last%d/diff%v/from%v/n%s/%s", jb.iv, min(jb.last, 2), jb.diff, jb.from != 0, bucket(jb.ndays), sign(b-a)))
+		c.Class(fmt.Sprintf("cli/iv%d/last%d/diff%v/from%v/noto%v/n%s/%s", jb.iv, min(jb.last, 2), jb.diff, jb.from != 0, jb.noTo, bucket(jb.ndays), sign(b-a)))
 		if jb.idx < 2 {
 			c.Sample(map[string]any{"stream": "cli", "args": jb.args, "stdout": clip(jb.stdout)})
 		}
